@@ -7,6 +7,7 @@ from __future__ import annotations
 
 import io
 import logging
+import decimal
 import threading
 import warnings
 from datetime import timedelta
@@ -194,12 +195,21 @@ def parse(text: str, want=None):
     if strict:
         cm.__enter__()
         warnings.simplefilter("error")
+    # ... nor on process-wide numeric settings an application may have changed (decimal precision and rounding): every fifth parse
+    dm = decimal.localcontext()
+    lowprec = _parse_count % 5 == 0
+    if lowprec:
+        dctx = dm.__enter__()
+        dctx.prec = 5
+        dctx.rounding = decimal.ROUND_DOWN
     try:
         c = Chart.from_file(io.StringIO(text, newline=""), want_tracks=want_arg(want))
         return c, None, _tls.sink
     except Exception as e:  # noqa: BLE001
         return None, e, _tls.sink
     finally:
+        if lowprec:
+            dm.__exit__(None, None, None)
         if strict:
             cm.__exit__(None, None, None)
         if lg.level != old:
